@@ -200,7 +200,12 @@ def synthetic_document(path):
             it("MUL"), it("PUSH [tag]", "2"), it("JUMP", jumpType="[in]"),
             it("tag", "2"), it("JUMPDEST", modifierDepth=0), it("PUSHIMMUTABLE", h(0xABCDEF)), it("PUSH", "0"), it("ADD"), it("PUSH data", h(0x0A11)),
             it("PUSH", "1"), it("MUL"), it("PUSHSIZE"), it("PUSHDEPLOYADDRESS"), it("DUP2"), it("PUSH", "0"), it("ADD"), it("ASSIGNIMMUTABLE", h(0xABCDEF)),
-            it("PUSH", "0"), it("DUP2"), it("ADD"), it("POP"), it("STOP")]
+            it("PUSH", "0"), it("DUP2"), it("ADD"), it("POP"), it("PUSH [tag]", "3"), it("JUMP"),
+            # operands of other pseudo-pushes that coincide with the per-block numbering of library references (0, 1)
+            it("tag", "3"), it("JUMPDEST"), it("PUSH", "0"), it("PUSHLIB", "contracts/Lib.sol:MyLib"), it("ADD"), it("PUSH [tag]", "1"), it("PUSH", "0"),
+            it("ADD"), it("PUSHLIB", "contracts/Other.sol:Other"), it("AND"), it("PUSH [$]", h(0)), it("PUSH", "0"), it("ADD"), it("PUSH #[$]", h(1)),
+            it("MUL"), it("PUSH data", h(1)), it("PUSH", "0"), it("ADD"), it("PUSH [tag]", "0"), it("PUSHIMMUTABLE", h(0)), it("PUSH", "1"), it("MUL"),
+            it("POP"), it("POP"), it("STOP")]
     sub = {".auxdata": "a264697066", ".code": list(code), ".data": {h(0x0A11): "6080", "0": {".code": [it("PUSH", "0"), it("DUP1"), it("ADD"), it("INVALID")], ".data": {}}}}
     doc = {"version": "0.8.19+commit.7dd6d404",
            "contracts": {"a.sol:A": {"asm": {".code": list(code), ".data": {"0": sub, "1": "deadbeef"}, "sourceList": ["a.sol"]}},
